@@ -6,6 +6,7 @@ import (
 	"github.com/GuanceCloud/platypus/pkg/token"
 	"os"
 	"path/filepath"
+	"reflect"
 	"strings"
 	"testing"
 	"unicode"
@@ -1020,6 +1021,78 @@ func TestParameterNames(t *testing.T) {
 		}
 	}
 	evid.Exhaustive("parameter name over scripts and character categories x position in the list; bound by name", n)
+}
+
+// TestCollectionDefaults: an omitted optional parameter takes its declared default - the very value the declaration
+// yields, with the Go types it has (integers stay integers, also beyond 2^53, typed slices stay what they are) - and
+// parameters that declare their types accept a literal given by name wherever it stands in the call.
+func TestCollectionDefaults(t *testing.T) {
+	defaults := []func() any{
+		func() any { return map[string]any{"n": int64(7), "big": int64(9007199254740993), "f": 2.5, "s": "x"} },
+		func() any { return []any{int64(1), int64(-2), 2.0, "s", nil, true} },
+		func() any { return map[string]any{"l": []any{int64(1), map[string]any{"k": int64(2)}}} },
+		func() any { return []string{"a", "b"} },
+		func() any { return map[string]int64{"a": 1} },
+		func() any { return int64(9007199254740993) },
+		func() any { return []any{} },
+		func() any { return map[string]any{} },
+	}
+	n := 0
+	for di, mk := range defaults {
+		var received []any
+		params := []*runtimev2.Param{{Name: "key", Typs: []ast.DType{ast.String}}, {Name: "opts", Val: mk}, {Name: "unit", Typs: []ast.DType{ast.String}, Val: func() any { return "ms" }}, {Name: "keep", Typs: []ast.DType{ast.Bool}, Val: func() any { return false }}}
+		fn := &runtimev2.Fn{
+			CallCheck: func(ctx *runtimev2.Task, e *ast.CallExpr) *errchain.PlError {
+				return runtimev2.CheckPassParam(ctx, e, params)
+			},
+			Call: func(ctx *runtimev2.Task, e *ast.CallExpr) *errchain.PlError {
+				var got []any
+				for i := range params {
+					v, err := runtimev2.GetParam(ctx, e, params, i)
+					if err != nil {
+						return err
+					}
+					got = append(got, v)
+				}
+				received = append(received, got)
+				return nil
+			},
+		}
+		calls := []struct {
+			src  string
+			want func() []any
+		}{
+			{"f(\"k\")", func() []any { return []any{"k", mk(), "ms", false} }},
+			{"f(\"k\", unit = \"s\")", func() []any { return []any{"k", mk(), "s", false} }},
+			{"f(unit = \"s\", key = \"k\")", func() []any { return []any{"k", mk(), "s", false} }},
+			{"f(\"k\", keep = true, unit = \"us\")", func() []any { return []any{"k", mk(), "us", true} }},
+			{"f(keep = true, key = \"k\")", func() []any { return []any{"k", mk(), "ms", true} }},
+			{"for i in [1, 2] {\n  f(\"k\")\n}", func() []any { return []any{"k", mk(), "ms", false} }},
+		}
+		for ci, c := range calls {
+			received = nil
+			rp := replay{Sig: "f(key: str, opts = <collection>, unit: str = \"ms\", keep: bool = false)", Call: c.src, Src: c.src}
+			s, err, crash := impl.LoadV2("c19.p", c.src, map[string]*runtimev2.Fn{"f": fn})
+			if crash != nil || err != nil {
+				rk.Fail(t, "defaults", rp, "a bindable call was refused at load: %v %v", err, crash)
+			}
+			if rerr, crash := impl.RunV2(s, nil); rerr != nil || crash != nil {
+				rk.Fail(t, "defaults", rp, "run failed: %v %v", rerr, crash)
+			}
+			if len(received) == 0 {
+				rk.Fail(t, "defaults", rp, "the function was not called")
+			}
+			for _, got := range received {
+				want := c.want()
+				if !reflect.DeepEqual(got, want) {
+					rk.Fail(t, "defaults", rp, "parameters received %#v, want %#v (the omitted parameter takes the declared default as declared)", got, want)
+				}
+			}
+			evid.Case(fmt.Sprintf("defaults/%d/%d", di, ci), true, "collection-defaults")
+			n++
+		}
+	}
+	evid.Exhaustive("declared default (collections with integers, typed collections, scalars) x call shape with typed parameters", n)
 }
 
 func TestManyParameters(t *testing.T) {
